@@ -1,8 +1,8 @@
 (* C09 property theorems: statements only, each closed by [exact].
    A run is ANY list of steps (Server / Begin a / Save a / SetHist a / Gap a / GapChain c) accepted by [run]:
    steps of different addresses interleave freely, the per-address lock is the only ordering constraint;
-   a Server step is accepted only for a consistent state (unique non-null ids, parents present) that
-   retracts nothing. *)
+   a Server step is accepted only for a consistent state (unique non-null ids, parents present, listed in
+   the canonical order: confirmed by (height, id), then mempool by id) that retracts nothing. *)
 From Coq Require Import NArith ZArith List Bool.
 From LV Require Import Model.C09 Proofs.C09.
 Import ListNotations.
@@ -29,15 +29,14 @@ Proof. exact rows_sound. Qed.
 Print Assumptions C09_rows_sound.
 
 (* One address: after an update_history of [a] that was notified of the current server status began at some
-   point of a stretch [ops2] without server change (arbitrary steps of other addresses interleaved, stale
-   notifications included), once it has written the history the stored history IS the server's, and once the
-   lock is released the stored history contains the server's. *)
+   point of a stretch [ops2] without server change (arbitrary steps of other addresses interleaved, stale or
+   duplicate notifications of [a] included), as soon as it has written the history (and ever after, lock
+   released or not) the stored history of [a] IS the server's history, as a list. *)
 Theorem C09_address_history : forall g ops1 ops2 s1 s2 a,
   run (init g) ops1 = Some s1 -> run s1 ops2 = Some s2 -> no_server ops2 ->
   In (Begin a (server_hist (server s1) a)) ops2 ->
   server s2 = server s1 /\
-  (aget (pend s2) a = Some HistSet -> get_hist s2 a = server_hist (server s2) a) /\
-  (aget (pend s2) a = None -> incl (server_hist (server s2) a) (get_hist s2 a)).
+  (aget (pend s2) a = Some HistSet \/ aget (pend s2) a = None -> get_hist s2 a = server_hist (server s2) a).
 Proof. exact address_complete. Qed.
 Print Assumptions C09_address_history.
 
@@ -54,10 +53,12 @@ Proof. exact address_recorded. Qed.
 Print Assumptions C09_address_complete.
 
 (* Convergence, schedule part: after the last server change every generated address has had one sync begun
-   with the current status, in any order and interleaving, and nothing is in flight: every address is in sync. *)
+   with the current status, in any order and interleaving, and nothing is in flight: every stored history
+   equals the server's and (hence) every address is in sync. *)
 Theorem C09_all_synced : forall g ops1 ops2 s1 s2,
   run (init g) ops1 = Some s1 -> run s1 ops2 = Some s2 -> no_server ops2 -> quiescent s2 ->
-  (forall a, known s2 a = true -> In (Begin a (server_hist (server s1) a)) ops2) -> in_sync s2.
+  (forall a, known s2 a = true -> In (Begin a (server_hist (server s1) a)) ops2) ->
+  in_sync s2 /\ forall a, known s2 a = true -> get_hist s2 a = server_hist (server s2) a.
 Proof. exact in_sync_reached. Qed.
 Print Assumptions C09_all_synced.
 
